@@ -228,7 +228,7 @@ def execute(case):
                         Y = Yn
                         obj = o2
                         states.append(seeds.h64(Y))
-                        continue
+                        break  # one drift is the verdict; cycling a growing file on only costs time
                     obj = o2
                 log.append((i, "cycle", op.get("n", 1), seeds.digest(Y)))
             elif k == "save_fault":
@@ -330,7 +330,7 @@ def execute(case):
 
 def base_specs(tier, seed):
     specs = [{"src": "fixture", "name": n} for n in files.fixture_names()]
-    n = 40 if tier == "quick" else 600
+    n = 30 if tier == "quick" else 600
     specs += [{"src": "gen", "seed": seeds.derive(seed, "c05gen", i) % (1 << 31), "nest": i % 3 == 0, "n": 20, "layout": 2} for i in range(n)]
     return specs
 
@@ -338,6 +338,8 @@ def base_specs(tier, seed):
 def perturbation(r, data, depth=0):
     if depth < 2 and r.random() < 0.2:
         return ["in", r.randrange(8), perturbation(r, data, depth + 1)]
+    if r.random() < 0.06:
+        return ["sampler_legacy", r.randrange(4), r.randrange(4)]
     for _ in range(8):
         if r.random() < 0.55:
             v = r.choice(CVAL_VALUES) if r.random() < 0.7 else r.randint(-(1 << 31), (1 << 31) - 1)
@@ -381,6 +383,9 @@ def plan(tier, seed):
     per = 6
     for j in range(0, len(specs), per):
         units.append({"kind": "plain", "specs": specs[j : j + per], "next": specs[(j + per) % len(specs)], "seed": seed, "tier": tier})
+    # files as older versions of SunVox / of this library wrote them: legacy Sampler records
+    legacy = [{"src": "fixture", "name": "sampler.sunsynth", "perturb": [["sampler_legacy", 0, v]]} for v in range(4)]
+    units.append({"kind": "plain", "specs": legacy, "next": specs[0], "seed": seed, "tier": tier, "perturbed": True})
     n = 5000 if tier == "quick" else 120000
     chunk = 100
     for i in range(0, n, chunk):
@@ -392,15 +397,23 @@ def run_unit(unit):
     acc = Acc()
     if unit["kind"] == "plain":
         for spec in unit["specs"]:
-            ops = [{"k": "load", "file": spec}, {"k": "save"}, {"k": "cycle", "n": 3}]
-            acc.run(execute, {"property": PROPERTY, "world": "cycles", "ops": ops})
+            ops = [{"k": "load", "file": spec}, {"k": "save", "perturbed": bool(unit.get("perturbed"))}, {"k": "cycle", "n": 3}]
+            acc.run(execute, {"property": PROPERTY, "world": "cycles", "ops": ops}, isolate=True)
+            if unit.get("perturbed"):
+                # two objects from such files alive in one process, cycled alternately
+                for other in unit["specs"]:
+                    ops = [{"k": "load", "file": other}, {"k": "save", "perturbed": True}, {"k": "load", "file": spec}, {"k": "save", "perturbed": True}, {"k": "cycle", "n": 3}]
+                    acc.run(execute, {"property": PROPERTY, "world": "cycles", "ops": ops}, isolate=True)
+                continue
             # write-fault sweep: every write call of small files, every 5th of larger ones
             data = files.materialize(spec)
             try:
                 nw = save(load(data))[2]
             except Exception:
                 continue
-            stride = 1 if (nw <= 400 or unit.get("tier") == "thorough") else 7
+            # quick: every write call of small files, at most ~120 evenly spread (odd stride, so all
+            # three calls of a chunk - id, size, payload - are hit) for larger ones; thorough: every call
+            stride = 1 if (nw <= 400 or unit.get("tier") == "thorough") else max(7, (nw // 120) | 1)
             for kind in ("write_eio", "write_cancel", "write_enospc", "write_short"):
                 ops = [{"k": "load", "file": spec}, {"k": "save"}]
                 ops += [{"k": "save_fault", "fault": {"kind": kind, "at": at}} for at in range(0, nw, stride)]
